@@ -730,7 +730,7 @@ fn probe_metadata(text: &str, why: &str, l: &mut Local) {
 // (d) line independence
 
 /// 12 rules that are accepted, each visible to the battery.
-const GOOD: [&str; 12] = [
+const GOOD: [&str; 13] = [
     "||ads.example.com^",
     "/banner/ad.",
     "@@||ads.example.com/x.js$script",
@@ -743,17 +743,20 @@ const GOOD: [&str; 12] = [
     "site.com##.banner",
     "site.com#@#.ad",
     "example.com##+js(s1, arg)",
+    // an accepted network rule that looks like a list header
+    "[ads]",
 ];
 const GOOD_GENERICHIDE: usize = 7;
 
 /// 12 junk lines; several look like the beginning of another construct.
-const JUNK: [&str; 12] = [
+const JUNK: [&str; 13] = [
     "",
     "##",
     "$",
     "@@",
     "[Adblock",
     "! Title: x",
+    "! Title: y",
     "#@#+js(",
     "||cdn.net^$unknownopt, \\",
     "example.com##",
@@ -812,6 +815,40 @@ fn check_line_independence(lines: &[&str], format: FilterFormat, crlf: bool, opt
     }
     let full_text = lines.join(sep);
     let kept_text = kept.join(sep);
+    // metadata of a list = per field, the value of the first line that carries one: every line is
+    // also loaded alone (no neighbours) and the results are merged first-wins
+    let meta_of = |text: &str| -> Result<String, String> {
+        catch(|| {
+            let mut fs = FilterSet::new(true);
+            let m = fs.add_filter_list(text, o);
+            format!("{:?}|{:?}|{:?}|{:?}", m.homepage, m.title, m.expires, m.redirect)
+        })
+    };
+    if matches!(format, FilterFormat::Standard) {
+        let merged = catch(|| {
+            let (mut h, mut t, mut e, mut r) = (None, None, None, None);
+            for ln in lines {
+                let mut fs = FilterSet::new(true);
+                let m = fs.add_filter_list(ln, o);
+                h = h.or(m.homepage);
+                t = t.or(m.title);
+                e = e.or(m.expires);
+                r = r.or(m.redirect);
+            }
+            format!("{:?}|{:?}|{:?}|{:?}", h, t, e, r)
+        });
+        l.compared += 1;
+        match (meta_of(&lines.join(sep)), merged) {
+            (Ok(a), Ok(b)) if a == b => {}
+            (Ok(a), Ok(b)) => l.mismatch(Mismatch {
+                sig: "c11.lineindep.metadata-depends-on-neighbour-lines".into(),
+                what: format!("metadata of {:?} is {} but the first-wins merge of the single-line metadata is {}", lines, a, b),
+                case: case.clone(),
+                size,
+            }),
+            (a, b) => panic_mismatch(l, &a.err().or(b.err()).unwrap_or_default(), "add_filter_list (metadata)", case.clone(), size),
+        }
+    }
     let build = |text: &str| -> Result<(Engine, Vec<u8>), String> {
         catch(|| {
             let mut fs = FilterSet::new(true);
@@ -1339,14 +1376,14 @@ fn check(ctx: &Ctx) -> i32 {
 
     ctx.finish(
         "model_checking",
-        "(a) every string of <= n symbols over the 22-symbol structural alphabet and (b) every single edit (delete / insert / substitute, 33 symbols, every character position; thorough: also every two-symbol insertion) of 140+ frozen real rule spellings, each through parse_filter (2 formats x 3 rule-type options x 2 permission masks), read_list_metadata, CosmeticFilter::parse, NetworkFilter::parse, parse_hosts_style and, when accepted, FilterSet -> Engine -> battery -> serialize: no panic, and per line NetworkOnly/CosmeticOnly keep exactly the rules of their kind; (c) headers with a 1/2/3/4-byte character at every offset around byte 1024; (d) all lists of <= k lines over 12 good + 12 junk lines (and hosts files over 6 + 7), LF and CRLF, optimised or not: engine(list) and engine(list minus rejected lines) serialise to the same bytes and answer the battery identically; (e) every spelling of every host entry vs `||host^`: same mask / hostname / pattern and same verdict on every request of the host universe; (f) all lists of <= k good rules under the three rule-type options. Non-trivial: (a,b) some parser accepts the text; (c) a title is extracted; (d) some line is rejected, some kept and the battery sees an effect; (e) the entry blocks at least one request; (f) the list has both network and cosmetic effects. states = engines built, transitions = queries executed",
+        "(a) every string of <= n symbols over the 22-symbol structural alphabet and (b) every single edit (delete / insert / substitute, 33 symbols, every character position; thorough: also every two-symbol insertion) of 140+ frozen real rule spellings, each through parse_filter (2 formats x 3 rule-type options x 2 permission masks), read_list_metadata, CosmeticFilter::parse, NetworkFilter::parse, parse_hosts_style and, when accepted, FilterSet -> Engine -> battery -> serialize: no panic, and per line NetworkOnly/CosmeticOnly keep exactly the rules of their kind; (c) headers with a 1/2/3/4-byte character at every offset around byte 1024; (d) all lists of <= k lines over 13 good + 13 junk lines (and hosts files over 6 + 7), LF and CRLF, optimised or not: engine(list) and engine(list minus rejected lines) serialise to the same bytes and answer the battery identically; (e) every spelling of every host entry vs `||host^`: same mask / hostname / pattern and same verdict on every request of the host universe; (f) all lists of <= k good rules under the three rule-type options. Non-trivial: (a,b) some parser accepts the text; (c) a title is extracted; (d) some line is rejected, some kept and the battery sees an effect; (e) the entry blocks at least one request; (f) the list has both network and cosmetic effects. states = engines built, transitions = queries executed",
         &[
             "css-validation is off (baseline configuration): selectors are not validated at parse time",
             "hosts entries that the hosts parser refuses (localhost, bare TLD, trailing dot, forbidden characters) or whose `||host^` is not a rule: Unspecified (executed, counted, not compared)",
             "ids and debug texts of hosts-derived rules are not compared (they differ by design)",
             "cosmetic answers of CosmeticOnly vs All are not compared for lists containing the $generichide exception (a network rule that CosmeticOnly must drop)",
             "if the serialisation of one and the same list is not reproducible the byte comparison of (d) is Unspecified (C09's subject)",
-            "metadata is not part of the engine and is not compared in (d)",
+            "metadata is not part of the engine; in (d) the metadata of a list is compared with the first-wins merge of the metadata of its lines loaded one by one",
         ],
     )
 }
